@@ -1,6 +1,7 @@
 package main
 
 import (
+	"bytes"
 	"encoding/json"
 	"fmt"
 	"sort"
@@ -95,6 +96,67 @@ func (m c11matrix) real() *pipeline.Matrix {
 
 var c11otherN int
 
+// parsed gives the same matrix as it comes out of Parse, from a JSON document; false when the matrix has no
+// spelling as a document (a nil value list, a nil adjustment)
+func (m c11matrix) parsed() (*pipeline.Matrix, bool) {
+	if m.nilp {
+		return nil, false
+	}
+	for _, vs := range m.setup {
+		if vs == nil {
+			return nil, false
+		}
+	}
+	doc := map[string]any{}
+	if vs, only := m.setup[""]; only && len(m.setup) == 1 {
+		doc["setup"] = vs
+	} else {
+		doc["setup"] = m.setup
+	}
+	var adjs []any
+	for _, a := range m.adjs {
+		if a.nilp {
+			return nil, false
+		}
+		ad := map[string]any{}
+		if v, only := a.with[""]; only && len(a.with) == 1 && c11otherN%2 == 0 {
+			ad["with"] = v
+		} else {
+			ad["with"] = a.with
+		}
+		switch a.skip {
+		case "true":
+			ad["skip"] = true
+		case "false":
+			ad["skip"] = false
+		case "other":
+			c11otherN++
+			ad["skip"] = []any{"reason", "", 0, "false", []any{}, 1}[c11otherN%6]
+		}
+		adjs = append(adjs, ad)
+	}
+	if adjs != nil {
+		doc["adjustments"] = adjs
+	}
+	text, err := json.Marshal(map[string]any{"steps": []any{map[string]any{"command": "echo", "matrix": doc}}})
+	if err != nil {
+		return nil, false
+	}
+	p, err := pipeline.Parse(bytes.NewReader(text))
+	if err != nil || len(p.Steps) != 1 {
+		oracleFail("C11", "document-rejected", m.sexp(), fmt.Sprintf("Parse of %s: %v", text, err))
+		return nil, false
+	}
+	cs, ok := p.Steps[0].(*pipeline.CommandStep)
+	if !ok || cs.Matrix == nil {
+		oracleFail("C11", "document-rejected", m.sexp(), fmt.Sprintf("Parse of %s gave %T without a matrix", text, p.Steps[0]))
+		return nil, false
+	}
+	return cs.Matrix, true
+}
+
+var c11caseN int
+
 // c11accepts is the specification, written from the property text.
 func c11accepts(m c11matrix, p map[string]string) bool {
 	if m.nilp {
@@ -162,6 +224,14 @@ func c11one(m c11matrix, p map[string]string) {
 		Label:  "label",
 		Env:    map[string]string{"K": "v"},
 		Matrix: m.real(),
+	}
+	// every third case takes its matrix from a parsed document instead
+	c11caseN++
+	if c11caseN%3 == 0 {
+		if pm, ok := m.parsed(); ok {
+			step.Matrix = pm
+			stat("C11", "matrix-from-document")
+		}
 	}
 	// make every dimension of p interpolatable so that acceptance is decided by validation alone
 	step.Command = "echo"
